@@ -20,6 +20,7 @@ void execute_c01(const Plan &plan, Verdict &v) {
     g_alloc = AllocCtl();
     g_alloc.fail_all = plan.k("allocfail_all", 0) != 0;
     uint64_t total_bytes = 0;
+    int last_byte = -1;   // last byte delivered through SCPI_Input
     // discrete-event clock: segments arrive after their delay; the deployment's idle timer (select() timeout in the example
     // servers) fires when nothing arrived for idle_ms while bytes are pending and makes the zero-length call
     Sim sim;
@@ -58,6 +59,7 @@ void execute_c01(const Plan &plan, Verdict &v) {
                 size_t before = w.ctx->buffer.position;
                 bool ret = w.input(op.s);
                 total_bytes += op.s.size();
+                if (!op.s.empty()) last_byte = (unsigned char) op.s.back();
                 const CallRec &c = w.calls.back();
                 if (c.overrun) {
                     any_overrun = true;
@@ -110,7 +112,8 @@ void execute_c01(const Plan &plan, Verdict &v) {
                 w.fw_clear();
             } else if (op.kind == "expect_consumed") {
                 // generator (i) streams end in a terminator that lies outside any block or string: everything must have been consumed
-                if (!any_overrun && !v.violated && w.ctx->buffer.position != 0)
+                // (a plan whose stream does not end in a terminator, e.g. after shrinking, makes no such promise)
+                if (!any_overrun && !v.violated && (last_byte == '\n' || last_byte == '\r') && w.ctx->buffer.position != 0)
                     v.fail("not-consumed", "pos", fmt("%zu bytes still pending after a well-formed terminated stream: \"%s\"", w.ctx->buffer.position,
                                                       c_escape(w.pending()).substr(0, 80).c_str()));
             }
